@@ -350,7 +350,7 @@ def run_cases(res, logic, cases, what, known=None):
     oans, oerr = optimized_interpreter_answers(ojobs)
     opt_diff = 0
     if oans is None:
-        res.violation('%s: the calls could not be repeated under python -O: %s' % (what, oerr), {'stderr': oerr})
+        common.helper_crash(res, '%s: the calls could not be repeated under python -O' % what, oerr, {'stderr': oerr})
     else:
         for (j, a0), a1 in zip(opairs, oans):
             if norm(a0) != norm(a1):
